@@ -13,7 +13,7 @@
   lean/CRProps/T11.lean proves the model's table (`CR.Cache.act`, `CR.Cache.writesOf`) equal to what these functions compute
   from the generated table, by `decide` (a finite table checked completely).
 
-  Part B (functional translation).  Denotations used by the generated token-level definitions (`sliceLast`, …).
+  Part B (functional translation).  Denotations used by the generated token-level definitions (`sliceFrom`, …).
   Core Lean only.
 -/
 import CRModel.Cache
@@ -313,9 +313,8 @@ structure Binding where
 
 /-! ## Part B: denotations for the functional translation -/
 
-/-- Python `l[-m:]`: for `m > 0` the last `m` elements (all if there are fewer), for `m = 0` everything,
-    for `m < 0` everything from index `-m`. -/
-def sliceLast {α : Type} (l : List α) (m : Int) : List α :=
-  if m > 0 then l.drop (l.length - m.toNat) else l.drop (-m).toNat
+/-- Python `l[k:]`: from index `k`; a negative `k` counts from the end (and stops at the beginning). -/
+def sliceFrom {α : Type} (l : List α) (k : Int) : List α :=
+  if k < 0 then l.drop (l.length - (-k).toNat) else l.drop k.toNat
 
 end CR.PyC11
